@@ -90,7 +90,10 @@ def _case(draw):
         m = n
     return {"mode": "direct", "ns": ns, "width": width, "n": n, "d": d, "kind": kind, "ll": ll, "lp": lp, "lq": lq,
             "beta_old": b_old, "beta_new": b_new, "size": m, "seed": draw(st.integers(0, 2**31 - 1)),
-            "x_seed": draw(st.integers(0, 2**31 - 1))}
+            "x_seed": draw(st.integers(0, 2**31 - 1)),
+            # history of the population object before the resampling call: diagnostics evaluated on it (weights / ESS at the
+            # target temperature), optionally followed by assigning its densities or temperature (as the samplers do)
+            "pre": draw(st.sampled_from([None, None, "diag", "diag+assign-ll", "diag+assign-beta"]))}
 
 
 def cases(tier):
@@ -203,11 +206,28 @@ def run_case(case, ctx):
     x = np.random.default_rng(case["x_seed"]).normal(size=(n, d))
     x[:, 0] = np.arange(n)
     ll = np.array([float(v) for v in case["ll"]])
-    src = SMCSamples(x=x, log_likelihood=ll, log_prior=np.array(case["lp"], dtype=float), log_q=np.array(case["lq"], dtype=float),
-                     beta=float(case["beta_old"]), xp=xp, dtype=dt)
+    pre = case.get("pre")
+    # the values the object is built with when they are assigned afterwards: another finite vector
+    ll0 = (0.5 * np.where(np.isfinite(ll[::-1]), ll[::-1], 0.0) - 1.0) if pre == "diag+assign-ll" else ll
+    b0 = 0.0 if (pre == "diag+assign-beta" and case["beta_old"] > 0) else float(case["beta_old"])
+    src = SMCSamples(x=x, log_likelihood=ll0, log_prior=np.array(case["lp"], dtype=float), log_q=np.array(case["lq"], dtype=float),
+                     beta=b0, xp=xp, dtype=dt)
+    if pre:
+        bn = float(case["beta_new"])
+        for fn in ("log_weights", "unnormalized_log_weights", "log_evidence_ratio", "log_evidence_ratio_variance"):
+            if hasattr(src, fn):
+                try:
+                    getattr(src, fn)(bn)
+                except ValueError as e:
+                    if "NaN" not in str(e):
+                        raise
+        if pre == "diag+assign-ll":
+            src.log_likelihood = src.array_to_namespace(ll)
+        elif pre == "diag+assign-beta":
+            src.beta = float(case["beta_old"])
     rec = RecordingRNG(case["seed"])
     out = src.resample(float(case["beta_new"]), n_samples=case["size"], rng=rec)
-    labels = ["direct", case["ns"], case["width"], case["kind"], "size:" + ("none" if case["size"] is None else "given")]
+    labels = ["direct", case["ns"], case["width"], case["kind"], "size:" + ("none" if case["size"] is None else "given"), f"pre:{pre}"]
     if len(rec.calls) != 1:
         ctx.fail("calls", f"resample drew {len(rec.calls)} times from the generator", case)
         return {"nontrivial": False, "labels": labels}
